@@ -105,8 +105,8 @@ def plan(gen, rep, tier, name="String"):
 
 PROBES = {
     # name -> (macro, call expression on an object `s` of basic_inplace_string<C, 4>, pointer `p`)
-    "rfind(s, pos, count)": ("VH_HAVE_RFIND_PN", "(void)s.rfind(p, 0, 1);"),
-    "replace(pos, count, s) / replace(first, last, s)": ("VH_HAVE_REPLACE_CSTR", "s.replace(0, 0, p); s.replace(s.cbegin(), s.cbegin(), p);"),
+    "rfind(s, pos, count)": ("VH_HAVE_RFIND_PN", "(void)s.rfind(p, etl::size_t(0), etl::size_t(1));"),
+    "replace(pos, count, s) / replace(first, last, s)": ("VH_HAVE_REPLACE_CSTR", "s.replace(etl::size_t(0), etl::size_t(0), p); s.replace(s.cbegin(), s.cbegin(), p);"),
 }
 
 
